@@ -8,6 +8,7 @@ from ..pygrammar import combinator_functions, returned_strings
 from .. import symcat as sc
 from .. import rules_grammar as rg
 from .. import rules_unif as ru
+from .. import rules_pyx as rp
 
 EXPLANATION = (
     'Closure and totality rules over the printers: R19.1 every label the rule functions can return (string constants of '
@@ -306,6 +307,7 @@ def check(repo, rep, tier):
     rep.rule('R19.2', 'every --format choice is dispatched by to_string')
     rep.rule('R19.3', 'placeholder-safe token access in printers')
     rep.rule('R19.4', 'feature members / shape-specific attributes in printers are available for every category the parser can return')
+    rp.r_failed_placeholder(repo, rep, 'R19.3')
     labels = r_label_closure(repo, rep)
     nl = sum(len(v['binary']) + len(v['unary']) for v in labels.values())
     rep.floor('grammar labels extracted', nl, 9 + 2 + 11 + 6)
